@@ -1,6 +1,7 @@
 import SLE.Lemmas.VMControl
 import SLE.Props.C10
 import SLE.Lemmas.MachineFacts
+import SLE.Lemmas.PathSim
 /-!
 # C08 — control flow is followed exactly as the EVM allows
 
@@ -85,5 +86,39 @@ theorem C08_validateJump_iff_evm (bs : List UInt8) (code : List Disasm.Instr)
       (w.toNat = t ∧ EVM.validDest (C10.toNats bs).toArray
           (EVM.pushData (C10.toNats bs).toArray ((C10.toNats bs).length + 1) 0 []) t = true) :=
   MachineFacts.validateJump_iff_evm bs code hne hlen h counter w hw t
+
+
+/-! ### Set level: what the machine executes is what the EVM can reach -/
+
+/-- Soundness of exploration: for every program over the instruction subset of C07 (no
+SIGNEXTEND/ADDMOD/MULMOD/BYTE) whose storage keys, memory offsets and jump targets are pushed
+immediately before use (`PushGuarded`), every configuration and every number of iterations, every
+offset some thread has executed is reachable for the reference EVM on some path (a JUMPI may go
+either way). `RReach` is the reflexive-transitive closure of the reference machine's step
+relation from `(0, {})`, and every such step is one unfolding of `EVM.explore`. -/
+theorem C08_executed_is_evm_reachable {bytes : List Nat} {code : List Disasm.Instr}
+    (H : PathSim.Prog bytes code) (hsc : PathSim.InScope bytes) (hg : PathSim.PushGuarded code)
+    (cfg : VM.Cfg) (hlim : 1 ≤ cfg.valueLimit) (fuel : Nat) :
+    ∀ t ∈ (VM.run cfg code fuel (VM.initVM cfg code)).queue ++ (VM.run cfg code fuel (VM.initVM cfg code)).stored,
+      ∀ i ins, t.visited.getD i 0 ≠ 0 → code[i]? = some ins → ins ≠ .nop →
+        ∃ cs, PathSim.RReach (PathSim.arr bytes) (PathSim.dat bytes) (i, cs) :=
+  PathSim.executed_is_evm_reachable_guarded H hsc hg cfg hlim fuel
+
+/-- The same without the syntactic restriction, given that the side conditions of the data
+simulation hold along the run (literal keys / offsets, evaluable jump targets). -/
+theorem C08_executed_is_evm_reachable_side {bytes : List Nat} {code : List Disasm.Instr}
+    (H : PathSim.Prog bytes code) (hsc : PathSim.InScope bytes) (cfg : VM.Cfg)
+    (hside : ∀ s, PathSim.MReach cfg code s → PathSim.SideOK code s) (fuel : Nat) :
+    ∀ t ∈ (VM.run cfg code fuel (VM.initVM cfg code)).queue ++ (VM.run cfg code fuel (VM.initVM cfg code)).stored,
+      ∀ i ins, t.visited.getD i 0 ≠ 0 → code[i]? = some ins → ins ≠ .nop → ins ≠ .op 0x5b →
+        ∃ cs, PathSim.RReach (PathSim.arr bytes) (PathSim.dat bytes) (i, cs) :=
+  PathSim.executed_is_evm_reachable H hsc cfg hside fuel
+
+/-- Every step of the reference relation is one unfolding of the reference machine's path
+enumeration (so `RReach` is about `EVM.explore`, not about a second semantics). -/
+theorem C08_RReach_is_explore {code : Array Nat} {data : List Nat} (hb : ∀ i, i < code.size → code[i]! < 256)
+    {c : PathSim.Conf} (h : PathSim.RReach code data c) :
+    ∀ fuel, ∀ x ∈ EVM.explore {} code data fuel c.1 c.2, ∃ fuel', x ∈ EVM.explore {} code data fuel' 0 {} :=
+  PathSim.explore_sound_for_RStep hb h
 
 end SLE.C08
